@@ -186,6 +186,7 @@ func ruleC16(w *World, r *Report) {
 	ruleC16Generator(w, r)
 	ruleTranslatorBytes(w, r, "C16", "R16.8")
 	ruleC16AssumedArgs(w, r)
+	ruleC16GeneratorOutput(w, r)
 	for a := range usedAssumptions {
 		r.Assumptions = append(r.Assumptions, a)
 	}
@@ -1466,4 +1467,64 @@ func ruleC16AssumedArgs(w *World, r *Report) {
 		r.check(okAll, "R16.9", w.FuncName(e.Caller), "the tc argument is the configured traffic class itself", w.Pos(c.Pos()), "QFIToTC[qfi] / DefaultTC", "the value passed as tc is "+bad+", not the configured class: the bound 'traffic class ≤ 3' says nothing about it, and the terminations action's tc parameter is 2 bits wide")
 	}
 	r.floor("R16.9 callers of BuildTerminationsTableEntry", n, 1)
+	// the same for slice_id (4 bits): what is passed as sliceID to the builders is the configured slice
+	m := 0
+	for _, f := range w.Funcs {
+		fname := w.FuncName(f)
+		if !strings.HasPrefix(fname, "pfcpiface.(*P4rtTranslator).Build") {
+			continue
+		}
+		sidx := -1
+		for i, p := range f.Params {
+			if p.Name() == "sliceID" {
+				sidx = i
+			}
+		}
+		if sidx < 0 {
+			continue
+		}
+		for _, e := range w.CG().callersOf(f) {
+			if strings.HasPrefix(w.FuncName(e.Caller), "test/") {
+				continue
+			}
+			c, ok := e.Site.(ssa.CallInstruction)
+			if !ok || sidx >= len(c.Common().Args) {
+				continue
+			}
+			m++
+			s := symOf(c.Common().Args[sidx]).String()
+			r.check(strings.HasSuffix(s, "conf.SliceID") || strings.HasSuffix(s, ".sliceID"), "R16.9", w.FuncName(e.Caller), "the sliceID argument of "+f.Name()+" is the configured slice", w.Pos(c.Pos()), s, "the value passed as sliceID is "+s+", not the configured slice: the bound 'slice ≤ 15' says nothing about it (an internal application ID goes up to 253), and slice_id is a 4-bit field")
+		}
+	}
+	r.floor("R16.9 call sites passing a slice ID", m, 2)
+}
+
+// ruleC16GeneratorOutput (R16.10): "the constants compiled into the agent are those derived from the shipped
+// P4Info" needs the generator's output file to contain the generated text and nothing else: it is written
+// with os.WriteFile, or opened with O_TRUNC (or O_EXCL) — a file opened O_WRONLY|O_CREATE keeps the tail of
+// what was there before whenever the new text is shorter (regeneration in place over the gofmt-ed file).
+func ruleC16GeneratorOutput(w *World, r *Report) {
+	n := 0
+	for _, f := range w.Funcs {
+		if !strings.HasPrefix(w.FuncName(f), "cmd/p4info_code_gen.") {
+			continue
+		}
+		allInstrs(f, func(i ssa.Instruction) {
+			c, ok := i.(*ssa.Call)
+			if !ok {
+				return
+			}
+			switch calleeName(c) {
+			case "os.WriteFile", "os.Create":
+				n++
+				r.ok("R16.10", w.FuncName(f), "the generator's output replaces the file", w.Pos(c.Pos()), shortCallee(calleeName(c))+" truncates")
+			case "os.OpenFile":
+				n++
+				k, isK := constInt(c.Call.Args[1])
+				const oTrunc, oExcl, oAppend = 0x200, 0x80, 0x400
+				r.check(isK && (k&oTrunc != 0 || k&oExcl != 0) && k&oAppend == 0, "R16.10", w.FuncName(f), "the generator's output replaces the file", w.Pos(c.Pos()), fmt.Sprintf("flags %#x", k), fmt.Sprintf("the output file is opened with flags %#x, without O_TRUNC: when the generated text is shorter than what the file held (regeneration in place over the gofmt-ed file, a P4Info revision that removes a table) the old tail survives — the same P4Info gives different, possibly invalid constants", k))
+			}
+		})
+	}
+	r.floor("R16.10 writes of the generator's output", n, 1)
 }
